@@ -190,6 +190,9 @@ func c11Gen(tier string, r *rand.Rand) []Case {
 			v("crafted-valid", c, "sha2_256", "craft:"+hx(c11Scalar(r, c))+":"+sv, 8)
 		}
 		v("crafted-valid", c, "sha2_256", "craft:"+hx(c11Scalar(r, c))+":nm1:"+hx(rbytes(r, 16)), 8)
+		for _, sv := range []string{"1", "2", hx(append(make([]byte, 20), rbytes(r, 12)...))} {
+			v("crafted-s-plus-n", c, "sha2_256", "craftplusn:"+hx(c11Scalar(r, c))+":"+sv, 8)
+		}
 		// every other length 0..130
 		for l := 0; l <= 130; l++ {
 			if l == 64 {
@@ -535,7 +538,7 @@ func c11Run(c Case) (Result, error) {
 					return Result{}, implViolation("SignatureFormatCheck of a %d-byte signature returned (%v, %v)", len(wide), v, e)
 				}
 			}
-		case strings.HasPrefix(in.Mut, "craft:"):
+		case strings.HasPrefix(in.Mut, "craft:"), strings.HasPrefix(in.Mut, "craftplusn:"):
 			// a VALID signature with a chosen s (1, n-1, ...): pick the nonce k, take r from k*G
 			// (the public key of k), and solve the ECDSA equation for the digest e = s*k - r*d mod n,
 			// which a fixed-output hasher then returns (any hasher of >= 32 bytes is admissible)
@@ -594,6 +597,15 @@ func c11Run(c Case) (Result, error) {
 			expect = 1
 			if rr.Sign() == 0 {
 				expect = 0
+			}
+			if strings.HasPrefix(in.Mut, "craftplusn:") {
+				// the same valid signature with n added to s (fits in 32 bytes because s is small):
+				// congruent mod n, out of range as an integer
+				sn := new(big.Int).Add(sv, n)
+				if sn.BitLen() <= 256 {
+					sig = append(rr.FillBytes(make([]byte, 32)), sn.FillBytes(make([]byte, 32))...)
+					expect = 0
+				}
 			}
 		case in.Mut == "othermsg":
 			vmsg = append(append([]byte{}, msg...), 0x01)
